@@ -263,6 +263,9 @@ def main(argv=None):
         from pyvc import replaycmd
         return replaycmd.main(prop, a.replay)
     os.environ["VERIF_TIER"] = a.tier
+    import glob
+    for old in glob.glob(os.path.join(ROOT, "replays", f"{prop}.*.json")):
+        os.unlink(old)  # replay files of earlier runs of this property
     try:
         mod, results, wall = run_property(prop, a.tier, seed, a.only, a.jobs)
         ev, lines, code = decide(prop, mod, results, a.tier, seed, wall)
